@@ -27,3 +27,45 @@ Definition spec_hash (v : val) : list byte := blake2b_256 (encode header v).
    of its current fields *)
 Definition stale (h : hdr) : bool :=
   negb (bytes_eqb (hcache h) zero32) && negb (bytes_eqb (hcache h) (spec_hash (hval h))).
+
+(* ---- internal/primitives/runtime/generic.Header ----
+   Its Digest is runtime.Digest { Logs []DigestItem } with `type DigestItem any` (the source
+   says "TODO: implement this as scale.VaryingDataType"): pkg/scale encodes each item as its
+   dynamic Go value, i.e. WITHOUT the variant index byte.  [encode_untagged] is that encoding
+   (finding generic-header-digest-untagged); it is the reference encoding exactly when the
+   digest is empty.  There is no cache: Hash() hashes the encoding on every call. *)
+Definition untag_item (it : val) : list byte :=
+  match it with
+  | VE i x => match lookup i (match prim_digest_item with TEnum cs => cs | _ => [] end) with
+              | Some (_, t) => encode t x
+              | None => []
+              end
+  | _ => []
+  end.
+Definition encode_untagged (v : val) : list byte :=
+  match v with
+  | VS [p; n; s; e; VL items] =>
+    encode h256 p ++ encode TCompact n ++ encode h256 s ++ encode h256 e ++
+    compact (lenN items) ++ flat_map untag_item items
+  | _ => []
+  end.
+(* guard of the finding: the header carries at least one digest item *)
+Definition has_digest_items (v : val) : bool :=
+  match v with
+  | VS [_; _; _; _; VL (_ :: _)] => true
+  | _ => false
+  end.
+Definition prim_header_hash (v : val) : list byte := blake2b_256 (encode_untagged v).
+
+(* a justification: its headers encoded the same way *)
+Definition encode_just_untagged (v : val) : list byte :=
+  match v with
+  | VS [r; c; VL hs] =>
+    encode u64 r ++ encode prim_commit c ++ compact (lenN hs) ++ flat_map encode_untagged hs
+  | _ => []
+  end.
+Definition just_has_digest_items (v : val) : bool :=
+  match v with
+  | VS [_; _; VL hs] => existsb has_digest_items hs
+  | _ => false
+  end.
